@@ -121,38 +121,6 @@ class _Canon(ast.NodeTransformer):
         return node
 
 
-def capture_family(text: str) -> bool:
-    """the call-site pattern of the known finding (inlining is not capture avoiding): an immediately called lambda (or a
-    one-line helper) one of whose ARGUMENTS mentions a name that a lambda / comprehension INSIDE its body binds"""
-    try:
-        tree = ast.parse(text)
-    except SyntaxError:
-        return False
-    helpers = {n.name: n for n in ast.walk(tree) if isinstance(n, ast.FunctionDef) and len(n.body) == 1 and isinstance(n.body[0], ast.Return)}
-    helpers.update({t.id: n.value for n in ast.walk(tree) if isinstance(n, ast.Assign) and isinstance(n.value, ast.Lambda)
-                    for t in n.targets if isinstance(t, ast.Name)})
-    for call in ast.walk(tree):
-        if not isinstance(call, ast.Call):
-            continue
-        if isinstance(call.func, ast.Lambda):
-            body = call.func.body
-        elif isinstance(call.func, ast.Name) and call.func.id in helpers:
-            h = helpers[call.func.id]
-            body = h.body if isinstance(h, ast.Lambda) else h.body[0].value
-        else:
-            continue
-        inner = set()
-        for n in ast.walk(body):
-            if isinstance(n, ast.Lambda):
-                inner |= {a.arg for a in n.args.args}
-            elif isinstance(n, ast.comprehension):
-                inner |= {x.id for x in ast.walk(n.target) if isinstance(x, ast.Name)}
-        used = {x.id for a in list(call.args) + [k.value for k in call.keywords] for x in ast.walk(a) if isinstance(x, ast.Name)}
-        if inner & used:
-            return True
-    return False
-
-
 def canon_typed(a):
     return ast.fix_missing_locations(_Canon().visit(copy.deepcopy(a)))
 
@@ -283,7 +251,7 @@ def check_program(ctx, text, typed, meta, reqs, keep, DS, TDS, received, key):
                         ctx.violate({**case, "stage": which, "query": ast.unparse(q)[:600], "dataset": val_sexpr(wd)[:800], "direct_python": repr(want[i])[:300],
                                      "ast_in_python": repr(have)[:300]},
                                     f"the {which} AST evaluated by CPython differs from the chain run directly",
-                                    key=key or ("C01-name-capture-on-inlining" if capture_family(text) else None))
+                                    key=key)
                         break
                     try:
                         wv = val_sexpr(want[i])
